@@ -218,6 +218,7 @@ class Check:
 
     current = None
     _carry = None
+    _real_stdout = None
 
     def guard(self, fn, *a, **kw):
         """Runs one case; an exception raised while handling the implementation's output becomes a broken correspondence
@@ -241,6 +242,11 @@ class Check:
         ap.add_argument("--replay", default=None)
         a = ap.parse_args(argv)
         self.pid = pid
+        # the library prints progress when a graph is built with verbose > 0 (a configuration the checks exercise):
+        # everything printed while the check runs is discarded; the result lines go to the real stdout
+        if Check._real_stdout is None:
+            Check._real_stdout = sys.stdout
+            sys.stdout = open(os.devnull, "w")
         self.tier = a.tier if a.tier in ("quick", "thorough") else "quick"
         self.replay = a.replay
         self.seed = seed_from_env()
@@ -427,7 +433,7 @@ class Check:
         }
         cov.update(self.extra)
         for sig, what in self.known_hits:
-            print(f"KNOWN-FINDING: property={self.pid} {sig}: {what}")
+            print(f"KNOWN-FINDING: property={self.pid} {sig}: {what}", file=Check._real_stdout)
         status = 0
         lines = []
         for v in self.violations:
@@ -455,11 +461,12 @@ class Check:
         with open(os.path.join(evdir, f"{self.pid}.json"), "w") as f:
             json.dump(ev, f, indent=1, default=str)
         for ln in lines:
-            print(ln)
+            print(ln, file=Check._real_stdout)
         print(
             f"[{self.pid}] tier={self.tier} seed={self.seed} obligations={n_ok}/{n_obl} evaluations={self.evaluations} "
             f"distinct={len(self.distinct)} violations={len(self.violations)} broken={len(self.broken)} "
-            f"known={len(self.known_hits)} wall={wall:.1f}s"
+            f"known={len(self.known_hits)} wall={wall:.1f}s",
+            file=Check._real_stdout,
         )
-        sys.stdout.flush()
+        Check._real_stdout.flush()
         sys.exit(status)
